@@ -79,3 +79,11 @@ Definition spec_record_ok (vers clen macSize : Z) (full : list Z) : bool :=
     if vers =? 768 then (p + 1 <=? Z.of_nat (length full)) && (p + 1 =? padlen)
     else valid_padding full && (p + 1 =? padlen)
   end.
+
+(* specification of removePaddingSSL30: accept iff p+1 <= length (contents unchecked), remove p+1; else report bad
+   and remove nothing *)
+Definition spec_remove_ssl30 (pl : list Z) : list Z * Z :=
+  match rev pl with
+  | [] => (pl, 0)
+  | p :: _ => if p + 1 <=? Z.of_nat (length pl) then (firstn (length pl - Z.to_nat (p + 1)) pl, 255) else (pl, 0)
+  end.
